@@ -130,7 +130,7 @@ func runC17(c *Ctx) {
 		}
 		c.Check("C17.A", ep+":store-access-behind-check", p, f.Pos(), bad == "" && n > 0, fmt.Sprintf("all %d store/helper calls run only after checkBackendID succeeded", n), "agent endpoint "+ep+": "+bad+": a caller that is not the registered backend user reaches the store")
 		// ---- C17.C
-		w := ssa.Value(f.Params[2])
+		w := ssa.Value(ParamAt(f, 2))
 		is401 := func(i ssa.Instruction) bool { st, ok := producesResponse(i, w); return ok && st == 401 }
 		hit, _ := (&Walk{Target: IsReturn, Avoid: is401, Ctx: f}).FromBlock(ifi.Block().Succs[fail])
 		other, _ := (&Walk{Target: func(i ssa.Instruction) bool { st, ok := producesResponse(i, w); return ok && st != 401 }, Ctx: f}).FromBlock(ifi.Block().Succs[fail])
@@ -187,8 +187,8 @@ func runC17(c *Ctx) {
 			idv := a[3]
 			okID := false
 			if g := CallResult(idv, 0, "(net/http.Header).Get"); g != nil {
-				k, _ := ConstString(g.Call.Args[1])
-				okID = PathOf(g.Call.Args[0]) == P(f, 2)+".Header" && k == hdrBackendID
+				k, _ := ConstString(PArgs(&g.Call)[1])
+				okID = PathOf(PArgs(&g.Call)[0]) == P(f, 2)+".Header" && k == hdrBackendID
 			}
 			c.Check("C17.B", "check:id-from-own-header", p, al.Pos(), okID, "the ID checked is the "+hdrBackendID+" header of this call", "the backend ID checked is "+PathOf(idv))
 			nOK := 0
@@ -241,7 +241,7 @@ func runC17(c *Ctx) {
 			}
 		}
 		if nk := c.UniqueCall("C17.B", p, f, false, "google.golang.org/appengine/v2/datastore.NewKey"); nk != nil {
-			a := CallOf(nk).Args
+			a := PArgs(CallOf(nk))
 			k, _ := ConstString(a[1])
 			okKey = k == "backend" && PathOf(a[2]) == P(f, 3)
 		}
@@ -273,7 +273,7 @@ func runC17(c *Ctx) {
 				if hit, _ := (&Walk{Target: crud, Edge: EdgeUnder(env(false, path))}).FromBlock(f.Blocks[0]); hit != nil {
 					bad = "path " + path + " reaches " + CalleeName(CallOf(hit)) + " for a non-admin"
 				}
-				w := ssa.Value(f.Params[2])
+				w := ssa.Value(ParamAt(f, 2))
 				if hit, _ := (&Walk{Target: IsReturn, Avoid: func(i ssa.Instruction) bool { st, ok := producesResponse(i, w); return ok && st == 403 }, Edge: EdgeUnder(env(false, path))}).FromBlock(f.Blocks[0]); hit != nil {
 					bad = "path " + path + " is not answered 403 for a non-admin"
 				}
@@ -369,7 +369,7 @@ func runC17(c *Ctx) {
 			})
 			ok := false
 			if nilIf != nil {
-				w := ssa.Value(f.Params[3])
+				w := ssa.Value(ParamAt(f, 3))
 				h1, _ := (&Walk{Target: func(i ssa.Instruction) bool { return isStoreCall(i) || isAppHelperCall(i) }}).FromBlock(nilIf.Block().Succs[nilSucc])
 				h2, _ := (&Walk{Target: IsReturn, Avoid: func(i ssa.Instruction) bool { st, k := producesResponse(i, w); return k && st == 401 }}).FromBlock(nilIf.Block().Succs[nilSucc])
 				ok = h1 == nil && h2 == nil && Dominates(nilIf, lb)
@@ -396,7 +396,7 @@ func runC17(c *Ctx) {
 		nq := 0
 		for _, call := range Calls(f, "(*google.golang.org/appengine/v2/datastore.Query).Filter") {
 			nq++
-			a := CallOf(call).Args
+			a := PArgs(CallOf(call))
 			k, _ := ConstString(a[1])
 			if strings.ReplaceAll(k, " ", "") != "EndUser=" {
 				continue
@@ -447,7 +447,7 @@ func runC17(c *Ctx) {
 			for _, g := range GuardingIfs(i) {
 				cond, ts := BoolTest(g.If)
 				if hp := CallResult(cond, 0, "strings.HasPrefix"); hp != nil && g.Succ == ts {
-					s, _ := ConstString(hp.Call.Args[1])
+					s, _ := ConstString(PArgs(&hp.Call)[1])
 					got[s] = shortCallee(CalleeName(CallOf(i)))
 					break
 				}
@@ -577,13 +577,13 @@ func ruleStoreKeys(c *Ctx, p *Prog, rule string) {
 		rs := Returns(f)
 		if len(rs) == 1 {
 			if call := CallResult(ReturnValue(rs[0], 0), 0, "fmt.Sprintf"); call != nil {
-				format, isC := ConstString(call.Call.Args[0])
+				format, isC := ConstString(PArgs(&call.Call)[0])
 				if isC {
 					nq := strings.Count(format, "%q")
 					nverbs := strings.Count(format, "%") - 2*strings.Count(format, "%%")
 					// every string parameter must be rendered with %q (quoted, hence delimiter-safe)
 					nparams := 0
-					SliceBack(call.Call.Args[1], func(v ssa.Value) bool {
+					SliceBack(PArgs(&call.Call)[1], func(v ssa.Value) bool {
 						if pr, isP := v.(*ssa.Parameter); isP && pr.Parent() == f {
 							nparams++
 						}
